@@ -10,6 +10,13 @@ Honest scope (DESIGN 4/C19): the estimator is numeric.  TLA+ contributes
 Binding: every call of the real sync_timestamps is recorded (deletions, returned index vectors, classes) and validated
 by spec/trace/ClockSyncTrace.tla, where Sound / Complete are evaluated against the truth recomputed by the spec.
 
+Hand-over and history dimensions (audit after round e): the same clauses also judge calls whose arrays are read-only / strided /
+windows of larger buffers / one object for both series, positional and default-omitting call styles, a non-default `tbin`,
+clocks that start far from zero (negative, a day, Unix time), runs of up to five consecutive deletions exported by TLC, and calls
+that have a *history*: an earlier call on the same array objects (repeated, reversed, against a third clock), an earlier call on
+another recording with the same span (same internal buffer sizes), an earlier call that raised; the returned mapping is used only
+after a later call on other data and after the caller has overwritten its arrays.
+
 Decided by projection on the real output, NOT by TLC: Matched (max |f(t) - true map| at held-out events inside the
 matched span <= 2 ms) and Drift (|reported - true| <= 5 ppm + 10 sigma of a straight-line fit with the given jitter).
 """
@@ -24,7 +31,17 @@ import numpy as np
 from vkit import tlc, tracecheck
 
 
-def make_scenario(rng, pattern=None, N=None, linear=None, gapmode=None, special=None, nmiss=None):
+FORMS = ("readonly", "column", "window", "negstride")
+PRES = ("repeat", "reverse", "same-a", "same-b", "same-span", "fail")
+T0S = (-4000.0, -1000.0, 86400.0, 1.0e6, 1.7e9)
+# The scenarios added by the audit use trains of at least 60 events: on trains of 30..40 events with short or mixed gaps and
+# several missing events the unchanged code now and then (1 in 10^3 .. 10^4) takes a wrong peak of the coarse correlation
+# (reported as a finding of the audit; the boundary scenarios of the first version still go down to 30 events)
+NMIN_NEW = 60
+KNOWN_A_SEED = 28          # a seed on which the long-train finding shows with this generator (255 of 300 pairs)
+
+
+def make_scenario(rng, pattern=None, N=None, linear=None, gapmode=None, special=None, nmiss=None, runs=None):
     """abstract scenario record (JSON-able); everything random is drawn here"""
     N = N or rng.randint(30, 300)
     sc = {"N": N, "gapmode": gapmode or rng.choice(["uniform", "short", "long", "mixed"]),
@@ -39,11 +56,109 @@ def make_scenario(rng, pattern=None, N=None, linear=None, gapmode=None, special=
         sc["missA"] = sorted(pos[p] for p in pattern["missA"])
         sc["missB"] = sorted(pos[p] for p in pattern["missB"])
         sc["pattern"] = [pattern["missA"], pattern["missB"]]
+    elif runs is not None:
+        # TLC's run pattern on 15 abstract events: 1..5 first five, 6..10 five consecutive interior events, 11..15 last five
+        m = rng.randint(7, N - 11)
+        pos = {**{i: i for i in range(1, 6)}, **{5 + i: m + i - 1 for i in range(1, 6)}, **{10 + i: N - 5 + i for i in range(1, 6)}}
+        sc["missA"] = sorted(pos[p] for p in runs["missA"])
+        sc["missB"] = sorted(pos[p] for p in runs["missB"])
+        sc["runs"] = [runs["missA"], runs["missB"]]
     else:
         ka, kb = nmiss if nmiss else (rng.randint(0, 5), rng.randint(0, 5))
         sc["missA"] = sorted(rng.sample(range(1, N + 1), ka))
         sc["missB"] = sorted(rng.sample(range(1, N + 1), kb))
     return sc
+
+
+def vary(sc, rng, i):
+    """hand-over / history variant number i of a scenario (fields absent = the plain call of the first version)"""
+    kinds = ["form", "call", "tbin", "t0", "pre", "post", "eval"]
+    kind = kinds[i % len(kinds)]
+    j = i // len(kinds)
+    if kind == "form":
+        sc["form"] = FORMS[j % len(FORMS)]
+    elif kind == "call":
+        sc["call"] = ("pos", "defaults")[j % 2]
+        if sc["call"] == "defaults":
+            sc["linear"] = bool(j // 2 % 2) and sc["linear"]
+    elif kind == "tbin":
+        sc["tbin"] = (0.08, 0.2)[j % 2]
+        sc["call"] = ("kw", "pos")[j // 2 % 2]
+    elif kind == "t0":
+        sc["t0"], sc["t0_anchor"] = T0S[j % len(T0S)], True
+    elif kind == "pre":
+        sc["pre"] = PRES[j % len(PRES)]
+        sc["indices"] = True
+    elif kind == "post":
+        sc["post"] = (["decoy", "scribble"], ["scribble"], ["decoy"])[j % 3]
+        sc["form"] = ("", "window", "column")[j // 3 % 3]
+    else:
+        sc["eval"] = "scalar"
+    # second, independent dimension on top (pairs of dimensions)
+    if rng.random() < 0.5:
+        k2 = rng.choice([k for k in kinds if k != kind])
+        if k2 == "form" and "form" not in sc:
+            sc["form"] = rng.choice(FORMS)
+        elif k2 == "t0":
+            sc["t0"], sc["t0_anchor"] = rng.choice(T0S), True
+        elif k2 == "pre" and "pre" not in sc:
+            sc["pre"] = rng.choice(PRES)
+            sc["indices"] = True
+        elif k2 == "post" and "post" not in sc:
+            sc["post"] = ["decoy", "scribble"]
+        elif k2 == "eval":
+            sc["eval"] = "scalar"
+        elif k2 == "call" and "call" not in sc:
+            sc["call"] = "pos"
+    sc["variant"] = kind
+    return sc
+
+
+def _hand_over(x, form, rng):
+    """the series as the caller holds it: (array given to the function, buffer the caller owns)"""
+    x = np.array(x, dtype=np.float64)
+    if form == "readonly":
+        x.flags.writeable = False
+        return x, None
+    if form == "column":          # first column of an events table (times, polarity): stride of two elements
+        tab = np.column_stack([x, np.where(rng.random(x.size) < 0.5, -1.0, 1.0)])
+        v = tab[:, 0]
+        v.flags.writeable = False
+        return v, tab
+    if form == "window":          # a stretch of a longer buffer with other events before and after
+        k0, k1 = int(rng.integers(1, 40)), int(rng.integers(1, 40))
+        buf = np.concatenate([x[0] - np.cumsum(rng.uniform(0.5, 10, k0))[::-1], x, x[-1] + np.cumsum(rng.uniform(0.5, 10, k1))])
+        return buf[k0:k0 + x.size], buf
+    if form == "negstride":
+        buf = x[::-1].copy()
+        return buf[::-1], buf
+    return x, x
+
+
+def _call(fn, tsa, tsb, sc, indices, linear):
+    style, tbin = sc.get("call", "kw"), sc.get("tbin")
+    if style == "pos":
+        return fn(tsa, tsb, 0.1 if tbin is None else tbin, indices, linear)
+    kw = {} if tbin is None else {"tbin": tbin}
+    if indices:
+        kw["return_indices"] = True
+    if not (style == "defaults" and not linear):
+        kw["linear"] = linear
+    return fn(tsa, tsb, **kw)
+
+
+def _decoy(rng, na, nb, lo, hi):
+    """another recording with the same series lengths and exactly the same overall first and last time (so every internal
+    buffer of the call has the size it has for the judged call), other events, other clock map"""
+    M = max(na, nb) + 2
+    t = np.cumsum(rng.uniform(0.5, 10, M))
+    da = np.sort(rng.choice(t, na, replace=False))
+    db = np.sort(rng.choice(t, nb, replace=False)) * (1 + rng.uniform(-100, 100) * 1e-6) + rng.uniform(-3, 3)
+    plo, phi = min(da[0], db[0]), max(da[-1], db[-1])
+    da, db = lo + (da - plo) * (hi - lo) / (phi - plo), lo + (db - plo) * (hi - lo) / (phi - plo)
+    (da if da[0] <= db[0] else db)[0] = lo
+    (da if da[-1] >= db[-1] else db)[-1] = hi
+    return da, db
 
 
 def run_scenario(sc):
@@ -59,6 +174,8 @@ def run_scenario(sc):
         gaps = rng.uniform(0.5, 1.0, N)
     elif gm == "long":
         gaps = rng.uniform(7, 10, N)
+    elif gm == "rare-short":      # long gaps with an occasional short one (known finding: see KNOWN_FINDINGS.txt)
+        gaps = np.where(rng.random(N) < 0.1, rng.uniform(0.5, 0.6, N), rng.uniform(9.5, 10, N))
     else:
         gaps = np.where(rng.random(N) < 0.5, rng.uniform(0.5, 0.7, N), rng.uniform(5, 10, N))
     t = np.cumsum(gaps) + sc["t0"]
@@ -66,6 +183,10 @@ def run_scenario(sc):
     k = rng.integers(0, N - 1, nheld)
     t_held = t[k] + (t[k + 1] - t[k]) * rng.uniform(0.2, 0.8, nheld)
     a, b = 1 + sc["drift_ppm"] * 1e-6, sc["offset"]
+    if sc.get("t0_anchor"):
+        # clocks that start far from zero: `offset` is the difference of the two clocks at the start of the recording (the
+        # quantifier bounds it to minutes), not the intercept of the map at time zero
+        b = sc["offset"] - sc["drift_ppm"] * 1e-6 * sc["t0"]
     jit = sc["jitter"]
     ja, jb = rng.uniform(-jit, jit, N), rng.uniform(-jit, jit, N)
     firsta, lasta = min(set(range(1, N + 1)) - set(sc["missA"])) - 1, max(set(range(1, N + 1)) - set(sc["missA"])) - 1
@@ -97,25 +218,74 @@ def run_scenario(sc):
             ta[lasta] += fix
     keepa = np.setdiff1d(np.arange(1, N + 1), sc["missA"]) - 1
     keepb = np.setdiff1d(np.arange(1, N + 1), sc["missB"]) - 1
-    tsa, tsb = ta[keepa], tb[keepb]
+    form, pre, post = sc.get("form", ""), sc.get("pre", ""), sc.get("post", [])
+    if sc["special"] == "alias":
+        # one array object for both series (drift 0, offset 0, nothing missing, no jitter)
+        tsa, bufa = _hand_over(t, form, rng)
+        tsb, bufb, a, b, jit = tsa, bufa, 1.0, 0.0, 0.0
+    else:
+        tsa, bufa = _hand_over(ta[keepa], form, rng)
+        tsb, bufb = _hand_over(tb[keepb], form, rng)
     rec = {"n": N, "missA": list(sc["missA"]), "missB": list(sc["missB"]), "indices": bool(sc["indices"]), "ia": [], "ib": [],
            "matched": "bad", "drift": "bad", "exc": "", "scenario": sc, "map_err_ms": None, "drift_err_ppm": None}
+    # what the call finds: earlier calls in the same process (results dropped; whatever they do is not judged here)
+    try:
+        if pre == "repeat":
+            _call(sync_timestamps, tsa, tsb, sc, not sc["indices"], sc["linear"])
+        elif pre == "reverse":
+            _call(sync_timestamps, tsb, tsa, sc, True, not sc["linear"])
+        elif pre in ("same-a", "same-b"):
+            # a third clock C of the same events: other drift, other offset, other events missing
+            keepc = np.setdiff1d(np.arange(N), rng.choice(N, int(rng.integers(0, 6)), replace=False))
+            tc = (t * (1 + rng.uniform(-100, 100) * 1e-6) + rng.uniform(-300, 300) + rng.uniform(-jit, jit, N))[keepc]
+            if pre == "same-a":
+                _call(sync_timestamps, tsa, tc, sc, True, sc["linear"])
+            else:
+                _call(sync_timestamps, tc, tsb, sc, True, sc["linear"])
+        elif pre == "same-span":
+            da, db = _decoy(rng, tsa.size, tsb.size, min(tsa.min(), tsb.min()), max(tsa.max(), tsb.max()))
+            _call(sync_timestamps, da, db, sc, True, sc["linear"])
+        elif pre == "fail":
+            for bad in ((tsa, tsb[:0]), (tsa[:0], tsb), (tsa, np.full(tsb.size, np.nan))):
+                try:
+                    _call(sync_timestamps, bad[0], bad[1], sc, True, sc["linear"])
+                except Exception:  # noqa  outside the quantifier: only its after-effects matter
+                    pass
+    except Exception:  # noqa  the earlier call is not the judged one
+        pass
     try:
         if sc["indices"]:
-            f, drift, ia, ib = sync_timestamps(tsa, tsb, return_indices=True, linear=sc["linear"])
+            f, drift, ia, ib = _call(sync_timestamps, tsa, tsb, sc, True, sc["linear"])
             rec["ia"], rec["ib"] = [int(x) for x in ia], [int(x) for x in ib]
+            _ = tsa[ia], tsb[ib]       # "indices for tsa and tsb": usable as such
         else:
-            f, drift = sync_timestamps(tsa, tsb, linear=sc["linear"])
+            f, drift = _call(sync_timestamps, tsa, tsb, sc, False, sc["linear"])
+        drift = float(drift)
+        # what happens before the mapping is used: a later call on another recording, the caller reuses its arrays
+        if "decoy" in post:
+            da, db = _decoy(rng, tsa.size, tsb.size, min(tsa.min(), tsb.min()), max(tsa.max(), tsb.max()))
+            try:
+                _call(sync_timestamps, da, db, sc, bool(sc["indices"]), sc["linear"])
+            except Exception:  # noqa  the later call is not the judged one
+                pass
+        if "scribble" in post:
+            for buf in (bufa, bufb):
+                if buf is not None and buf.flags.writeable:
+                    buf[...] = rng.uniform(-1e3, 1e3, buf.shape)
         # held-out events inside the span of the events both sides have
         both = np.intersect1d(keepa, keepb)
         lo, hi = t[both].min(), t[both].max()
         th = t_held[(t_held > lo) & (t_held < hi)]
-        err = float(np.max(np.abs(np.asarray(f(th)) - (th * a + b)))) if th.size else 0.0
+        if sc.get("eval", "vector") == "scalar":
+            fth = np.array([float(f(float(x))) for x in th])
+        else:
+            fth = np.asarray(f(th))
+        err = float(np.max(np.abs(fth - (th * a + b)))) if th.size else 0.0
         rec["map_err_ms"] = round(err * 1e3, 4)
         rec["matched"] = "ok" if err <= 2e-3 else "bad"
         nb, T = both.size, hi - lo
         sig = np.sqrt(2) * (jit / np.sqrt(3)) * np.sqrt(12 / nb) / T * 1e6
-        derr = abs(float(drift) - sc["drift_ppm"])
+        derr = abs(drift - (sc["drift_ppm"] if sc["special"] != "alias" else 0.0))
         rec["drift_err_ppm"] = round(derr, 4)
         rec["drift"] = "ok" if derr <= 5 + 10 * sig else "bad"
     except Exception as ex:  # noqa  the property says the call returns a mapping
@@ -139,14 +309,29 @@ def _validate(ctx, recs, label, jvms=3):
 def _describe(t):
     s = t["scenario"]
     return (f"sync_timestamps(N={s['N']}, missing A={s['missA']} B={s['missB']}, gaps={s['gapmode']}, drift={s['drift_ppm']:.1f} ppm, "
-            f"offset={s['offset']:.2f} s, jitter={s['jitter']:.1e}, linear={s['linear']}, {s['special'] or 'plain'}, seed={s['seed']}): "
+            f"offset={s['offset']:.2f} s, jitter={s['jitter']:.1e}, linear={s['linear']}, {s['special'] or 'plain'}, t0={s['t0']:.6g}, "
+            f"{_handover(s)}seed={s['seed']}): "
             f"{len(t['ia'])} pairs, map error {t['map_err_ms']} ms, drift error {t['drift_err_ppm']} ppm {t['exc']}")
+
+
+def _handover(s):
+    """the non-default ways of handing over / calling / ordering calls of a scenario, for the report line"""
+    bits = [f"{k}={s[k]}" for k in ("form", "call", "tbin", "pre", "post", "eval") if s.get(k)]
+    return (", ".join(bits) + ", ") if bits else ""
 
 
 def _key(prop, t):
     head = prop.split(":")[0].lower()
+    sc = t["scenario"]
     if head == "returns":
-        return "sync:raises" + (":" + t["scenario"]["special"] if t["scenario"]["special"] else "")
+        return "sync:raises" + (":" + sc["special"] if sc["special"] else "")
+    # scenario classes in which the unchanged estimator is known to fail now and then (KNOWN_FINDINGS.txt): the coarse
+    # correlation of a short train that lost a third of its events can peak at a wrong offset; in interpolating mode a long
+    # train of long gaps with an occasional short one loses its last events
+    if sc["N"] < 45 and len(sc["missA"]) + len(sc["missB"]) >= 6:
+        return "sync:" + head + ":short-train-many-missing"
+    if sc["gapmode"] == "rare-short" and not sc["linear"] and sc["N"] >= 250:
+        return "sync:" + head + ":long-train-rare-short-gaps"
     return "sync:" + head
 
 
@@ -170,7 +355,7 @@ def run_model(ctx):
     return json.loads(out.read_text()), cex_span
 
 
-def plan(ctx, patterns):
+def plan(ctx, patterns, runs=()):
     rng = random.Random(ctx.seed)
     pats = sorted(patterns, key=lambda p: (len(p["missA"]) + len(p["missB"]), p["missA"], p["missB"]))
     if ctx.quick:
@@ -192,6 +377,29 @@ def plan(ctx, patterns):
     nspec = 12 if ctx.quick else 120
     for i in range(nspec):
         scs.append(make_scenario(rng, special="integer-span", N=rng.randint(30, 80)))
+    # --- audit after round e: own random stream, so that the scenarios above are those of the first version
+    rng = random.Random(ctx.seed * 7919 + 19)
+    # runs of up to five consecutive deletions at the start / inside / at the end (TLC's run patterns)
+    runs = sorted(runs, key=lambda p: (p["missA"], p["missB"]))
+    full = [p for p in runs if {len(p["missA"]), len(p["missB"])} <= {0, 5} and (p["missA"] or p["missB"])]
+    if ctx.quick:
+        runs = full + rng.sample([p for p in runs if p not in full], 30)
+    for i, p in enumerate(runs):
+        scs.append(make_scenario(rng, runs=p, linear=bool(i % 2), N=rng.choice([NMIN_NEW, NMIN_NEW + 1, rng.randint(NMIN_NEW, 300)])))
+        scs[-1]["indices"] = True
+    # how the series are handed over, how the function is called, and what happened before / happens after the call
+    nvar = 147 if ctx.quick else 2520
+    for i in range(nvar):
+        sc = make_scenario(rng, N=rng.randint(NMIN_NEW, 300)) if i % 3 else \
+            make_scenario(rng, N=rng.randint(200, 300), gapmode=rng.choice(["long", "uniform"]))
+        if i % 3 == 0:
+            sc["drift_ppm"] = rng.choice([-100.0, 100.0, rng.uniform(-100, 100)])
+        scs.append(vary(sc, rng, i))
+    # one array object given as both series, in every storage form
+    for i, form in enumerate(("",) + FORMS if ctx.quick else (("",) + FORMS) * 4):
+        sc = make_scenario(rng, special="alias", nmiss=(0, 0), linear=bool(i % 2), N=rng.randint(NMIN_NEW, 300))
+        sc.update({"form": form, "drift_ppm": 0.0, "offset": 0.0, "jitter": 0.0, "indices": True})
+        scs.append(sc)
     return scs
 
 
@@ -207,27 +415,43 @@ def report(ctx, recs, verdicts):
 def run(ctx):
     ctx.level = "exploration"   # TLA+ decides bookkeeping + bin arithmetic only (DESIGN §4 C19)
     cases, cex_span = run_model(ctx)
-    scs = plan(ctx, cases["patterns"])
+    scs = plan(ctx, cases["patterns"], cases["runs"])
     # the counterexample of the pre-fix binning model, on the real code: a train whose span is cex_span ms
     cex = make_scenario(random.Random(ctx.seed + 7), special="integer-span", N=30, gapmode="short")
     cex["span_multiple_ms"] = cex_span
     scs.append(cex)
+    # the two known findings, each on the input it was found with (printed as KNOWN-FINDING, see KNOWN_FINDINGS.txt)
+    scs.append({"N": 30, "gapmode": "short", "drift_ppm": 100.0, "offset": -4.282438818823914, "jitter": 0.0, "linear": False,
+                "indices": True, "seed": 960557044, "special": "", "t0": 239.05073449693666, "missA": [7, 12, 21, 27, 28],
+                "missB": [2, 5, 11, 16, 28]})
+    scs.append({"N": 300, "gapmode": "rare-short", "drift_ppm": -100.0, "offset": -3.5, "jitter": 1e-4, "linear": False,
+                "indices": True, "seed": KNOWN_A_SEED, "special": "", "t0": 100.0, "missA": [], "missB": []})
     recs = [run_scenario(sc) for sc in scs]
     for t in recs:
         s = t["scenario"]
-        ctx.count(1, key=(s["N"], tuple(s["missA"]), tuple(s["missB"]), s["seed"]))
+        ctx.count(1, key=(s["N"], tuple(s["missA"]), tuple(s["missB"]), s["seed"], s.get("form", ""), s.get("pre", ""),
+                          s.get("call", ""), s.get("tbin"), tuple(s.get("post", [])), s.get("eval", "")))
     verdicts = _validate(ctx, recs, "clocksync")
     report(ctx, recs, verdicts)
     ok = [t for t in recs if not t["exc"]]
     ctx.cov["map_error_ms_worst"] = max(t["map_err_ms"] for t in ok) if ok else None
     ctx.cov["drift_error_ppm_worst"] = max(t["drift_err_ppm"] for t in ok) if ok else None
     ctx.cov["patterns_from_tlc"] = len(cases["patterns"])
+    ctx.cov["run_patterns_from_tlc"] = len(cases["runs"])
+    for dim in ("form", "call", "tbin", "pre", "eval"):
+        ctx.cov["calls_by_" + dim] = {str(v): sum(1 for t in recs if t["scenario"].get(dim) == v)
+                                      for v in sorted({t["scenario"].get(dim) for t in recs if t["scenario"].get(dim)}, key=str)}
+    ctx.cov["calls_mapping_used_late"] = sum(1 for t in recs if t["scenario"].get("post"))
+    ctx.cov["calls_clock_origin_far"] = sum(1 for t in recs if t["scenario"]["t0"] in T0S)
     for t in recs[:2] + recs[-2:]:
         ctx.sample({k: v for k, v in t.items() if k not in ("ia", "ib")})
     selftest(ctx, recs, {v["index"] for v in verdicts})
     ctx.cov["rule"] = ("model: all (MissA, MissB) with <= MaxMiss deletions per side on trains of <= MaxN events; all spans 1..30000 ms; "
                        "experiments: one sync_timestamps call per (deletion pattern mapped onto a 30..300-event train | random 0..5 "
-                       "deletions per side) x gap class x drift x offset x jitter x mode x seed")
+                       "deletions per side | TLC's runs of <= 5 consecutive deletions at the start / inside / at the end) x gap class x drift "
+                       "x offset x jitter x mode x seed; variants: storage form of the arrays x call style x tbin x clock origin x "
+                       "earlier calls (same objects / third clock / same span / raising) x later call and overwritten caller arrays "
+                       "before the mapping is used x scalar evaluation")
     ctx.cov["exhaustive"] = False
     ctx.cov["numeric_postconditions"] = ("Matched (<= 2 ms at held-out events inside the matched span) and Drift (<= 5 ppm + 10 sigma): "
                                          "measured on the returned mapping, not decided by TLC")
